@@ -19,6 +19,7 @@ package composite
 import (
 	"fmt"
 	"metacontroller/pkg/controller/common"
+	v1 "metacontroller/pkg/controller/common/api/v1"
 	v2 "metacontroller/pkg/controller/common/api/v2"
 
 	"k8s.io/apimachinery/pkg/runtime/schema"
@@ -30,7 +31,11 @@ import (
 	dynamicobject "metacontroller/pkg/dynamic/object"
 )
 
-func (pc *parentController) syncRollingUpdate(parentRevisions []*parentRevision, observedChildren v2.UniformObjectMap) error {
+func (pc *parentController) syncRollingUpdate(parentRevisions []*parentRevision, uniformObservedChildren v2.UniformObjectMap) error {
+	// ControllerRevisions and the desired children maps name children relative to the
+	// parent, so look observed children up by their relative names as well.
+	observedChildren := uniformObservedChildren.Convert(parentRevisions[0].parent)
+
 	// Reconcile the set of existing child claims in ControllerRevisions.
 	claimed := pc.syncRevisionClaims(parentRevisions)
 
@@ -160,7 +165,7 @@ func (pc *parentController) syncRollingUpdate(parentRevisions []*parentRevision,
 	return nil
 }
 
-func (pc *parentController) shouldContinueRolling(latest *parentRevision, observedChildren v2.UniformObjectMap) error {
+func (pc *parentController) shouldContinueRolling(latest *parentRevision, observedChildren v1.RelativeObjectMap) error {
 	// We continue rolling only if all children claimed by the latest revision
 	// are updated and were observed in a "happy" state, according to the
 	// user-supplied, resource-specific status checks.
